@@ -696,6 +696,14 @@ static void run_c06_chain(void)
 SIM_WORKLOAD("C11", "chain", run_c11_chain, 10)
 SIM_WORKLOAD("C06", "chain", run_c06_chain, 5)
 SIM_WORKLOAD("C02", "chain", run_c02_chain, 10)
+/* C01: every unit of the chain -- whatever directed switch, pending migration or cancellation it
+ * went through -- ends or is accounted for; a unit that is dropped on the way leaves the run
+ * without progress */
+static void run_c01_chain(void)
+{
+    run_chain(0);
+}
+SIM_WORKLOAD("C01", "chain", run_c01_chain, 2)
 
 /* ================================================================ scenario C */
 /* ABT_thread_yield_to towards a unit that sits in a pool other streams pop from at the same
